@@ -172,6 +172,9 @@ class InfEv:
         if isinstance(s, ast.If):
             d = bool(s.test.value) if isinstance(s.test, ast.Constant) \
                 else self.choose(s.test)
+            if d is None:
+                from .rat import FORK
+                d = FORK.ask(s.test)
             if d is not None:
                 self.run(s.body if d else s.orelse)
                 return
